@@ -475,88 +475,47 @@ func c12Order(c *core.Ctx) {
 		c.Ob("C12-R2", fd.Name()+"#error-return", loop.Pos(), false, "the loop never returns an error")
 		return
 	}
-	// what is remembered from one entry to the next: a local declared outside the loop and
-	// assigned inside it from the element's Since (the previous start date) or from the
-	// element itself (then its Since is the previous start date)
-	var prev *types.Var
-	holder := false
-	ldOrder := core.NewLocalDefs(info, fd.Decl.Body)
-	ast.Inspect(loop.Body, func(n ast.Node) bool {
-		as, ok := n.(*ast.AssignStmt)
-		if !ok || len(as.Lhs) != 1 || len(as.Rhs) != 1 || as.Tok != token.ASSIGN {
-			return true
-		}
-		lv := core.VarOf(info, as.Lhs[0])
-		if lv == nil || lv.IsField() || (loop.Pos() <= lv.Pos() && lv.Pos() <= loop.End()) {
-			return true
-		}
-		rhs := ast.Unparen(ldOrder.Resolve(as.Rhs[0], 2)) // `prev = since` with `since := v.Since`
-		if core.IsFieldOfVar(info, rhs, cur, "Since") {
-			prev, holder = lv, false
-		} else if core.VarOf(info, rhs) == cur {
-			prev, holder = lv, true
-		}
-		return true
-	})
-	if prev == nil {
-		c.Undecided("C12-R2", fd.Name()+"#prev", loop.Pos(), "cannot identify the variable holding the previous entry or its start date")
-		return
+	// The function is evaluated over abstract dates, whatever it keeps from one entry to the
+	// next (a date pointer, the previous entry, a copy of the date and a flag): the statements
+	// before the loop, then the loop body for a first unqualified entry, then for a second one.
+	// A date is nil, invalid (the zero date) or one of two valid dates whose order the case
+	// fixes; IsValid / IsZero / Before / After / Equal / DaysSince are computed on them, a method
+	// called through a nil pointer is recorded as a dereference. Conditions that do not concern
+	// the dates (the entries' qualifiers) are enumerated: where strict descending order requires
+	// an error some assignment (both entries unqualified) must report one, otherwise none may.
+	type absDate struct {
+		name  string
+		valid bool
 	}
-	class := func(e ast.Expr) string {
-		e = ast.Unparen(e)
-		if st, ok := e.(*ast.StarExpr); ok {
-			e = ast.Unparen(st.X)
+	preLoop := []ast.Stmt{}
+	for _, s := range fd.Decl.Body.List {
+		if s.Pos() >= loop.Pos() {
+			break
 		}
-		if se, ok := e.(*ast.SelectorExpr); ok && se.Sel.Name == "Date" {
-			if f := core.FieldOf(info, se); f != nil && f.Name() == "Date" {
-				e = ast.Unparen(se.X)
-			}
+		switch s.(type) {
+		case *ast.DeclStmt, *ast.AssignStmt:
+			preLoop = append(preLoop, s)
 		}
-		if v := core.VarOf(info, e); v != nil && v != prev && v != cur && !v.IsField() {
-			e = ast.Unparen(ldOrder.Resolve(e, 2)) // a local copy of a start date
-		}
-		if core.IsFieldOfVar(info, e, cur, "Since") {
-			return "A"
-		}
-		if holder {
-			if core.IsFieldOfVar(info, e, prev, "Since") {
-				return "B"
-			}
-			if core.VarOf(info, e) == prev {
-				return "BH"
-			}
-			return ""
-		}
-		if core.VarOf(info, e) == prev {
-			return "B"
-		}
-		return ""
 	}
-	mentionsDate := func(e ast.Expr) bool {
-		found := false
-		ast.Inspect(e, func(n ast.Node) bool {
-			if x, ok := n.(ast.Expr); ok && class(x) != "" {
-				found = true
-			}
-			return true
-		})
-		return found
+	type since struct {
+		isNil bool
+		date  absDate
 	}
-	// One pass of the loop body is evaluated for an entry under each date case and every
-	// assignment of the conditions that do not concern dates (the entry's qualifiers): it
-	// reports an error, or goes on. Where strict descending order requires an error some
-	// assignment (the unqualified entry) must report one; where it does not, none may.
+	type absEntry struct{ i int }
 	for _, t := range []struct {
-		name string
-		env  dateEnv
-		want bool
+		name    string
+		entries []since // start dates of the consecutive unqualified entries
+		ord     int     // sign of (second − first) when both are valid
+		want    bool
 	}{
-		{"first-entry(prev nil)", dateEnv{aValid: true, bNil: true}, false},
-		{"cur<prev", dateEnv{aValid: true, bValid: true, ord: -1}, false},
-		{"cur=prev", dateEnv{aValid: true, bValid: true, ord: 0}, true},
-		{"cur>prev", dateEnv{aValid: true, bValid: true, ord: 1}, true},
-		{"cur-undated(nil)-after-dated", dateEnv{aNil: true, bValid: true}, false},
+		{"first-entry(prev nil)", []since{{date: absDate{"A", true}}}, 0, false},
+		{"cur<prev", []since{{date: absDate{"B", true}}, {date: absDate{"A", true}}}, -1, false},
+		{"cur=prev", []since{{date: absDate{"B", true}}, {date: absDate{"A", true}}}, 0, true},
+		{"cur>prev", []since{{date: absDate{"B", true}}, {date: absDate{"A", true}}}, 1, true},
+		{"cur-undated(nil)-after-dated", []since{{date: absDate{"B", true}}, {isNil: true}}, 0, false},
+		{"dated-after-undated(nil)", []since{{isNil: true}, {date: absDate{"A", true}}}, 0, false},
 	} {
+		t := t
 		key := fd.Name() + "#order:" + t.name
 		var free []string
 		known := map[string]bool{}
@@ -566,24 +525,138 @@ func c12Order(c *core.Ctx) {
 			for i, k := range free {
 				assign[k] = mask&(1<<uint(i)) != 0
 			}
-			dev := &dateEval{info: info, class: class, env: t.env}
-			ev := &core.AbsEval{Info: info}
+			iter := 0
 			grew := false
+			ev := &core.AbsEval{Info: info}
+			// order of two abstract dates: the zero date comes before every valid one
+			order := func(x, y absDate) int {
+				switch {
+				case x.name == y.name:
+					return 0
+				case !x.valid && !y.valid:
+					return 0
+				case !x.valid:
+					return -1
+				case !y.valid:
+					return 1
+				case x.name == "A": // A is the second entry's date, B the first's
+					return t.ord
+				default:
+					return -t.ord
+				}
+			}
+			asDate := func(e ast.Expr) (absDate, bool, bool) { // value, isNilPointer, ok
+				v, ok := ev.Eval(e)
+				if !ok {
+					return absDate{}, false, false
+				}
+				switch x := v.(type) {
+				case absDate:
+					return x, false, true
+				case core.AbsPtr:
+					if d, isD := x.Elem.(absDate); isD {
+						return d, false, true
+					}
+				case string:
+					if x == "nil" {
+						return absDate{}, true, true
+					}
+				}
+				return absDate{}, false, false
+			}
+			ev.Zero = func(tt types.Type) (any, bool) {
+				if core.TypeString(tt) == "cal.Date" {
+					return absDate{"zero", false}, true
+				}
+				return nil, false
+			}
 			ev.Atom = func(e ast.Expr) (any, bool) {
 				e = ast.Unparen(e)
-				if core.IsNil(info, e) {
-					return "nil", true
+				switch x := e.(type) {
+				case *ast.Ident:
+					if info.Uses[x] == types.Object(cur) {
+						return absEntry{iter}, true // the entry itself (kept as "the previous entry" by some forms)
+					}
+				case *ast.SelectorExpr:
+					if f := core.FieldOf(info, x); f != nil && f.Name() == "Since" {
+						if ev0, ok := ev.Eval(x.X); ok {
+							if en, isEntry := ev0.(absEntry); isEntry && en.i < len(t.entries) {
+								s := t.entries[en.i]
+								if s.isNil {
+									return "nil", true
+								}
+								return core.AbsPtr{Elem: s.date}, true
+							}
+							if ev0 == any("nil") {
+								deref = types.ExprString(x)
+								return "nil", true
+							}
+						}
+					}
+					// <date>.Date: the civil date inside a cal.Date
+					if f := core.FieldOf(info, x); f != nil && f.Name() == "Date" {
+						if d, isNil, ok := asDate(x.X); ok {
+							if isNil {
+								deref = types.ExprString(x)
+								return absDate{"zero", false}, true
+							}
+							return d, true
+						}
+					}
+				case *ast.CompositeLit:
+					if core.TypeString(info.TypeOf(x)) == "cal.Date" && len(x.Elts) == 0 {
+						return absDate{"zero", false}, true
+					}
+				case *ast.CallExpr:
+					se, ok := ast.Unparen(x.Fun).(*ast.SelectorExpr)
+					if !ok {
+						break
+					}
+					switch se.Sel.Name {
+					case "IsValid", "IsZero":
+						if len(x.Args) != 0 {
+							break
+						}
+						d, isNil, ok := asDate(se.X)
+						if !ok {
+							break
+						}
+						if isNil {
+							deref = types.ExprString(x)
+							return false, true
+						}
+						return d.valid == (se.Sel.Name == "IsValid"), true
+					case "Before", "After", "Equal":
+						if len(x.Args) != 1 {
+							break
+						}
+						d1, n1, ok1 := asDate(se.X)
+						d2, n2, ok2 := asDate(x.Args[0])
+						if !ok1 || !ok2 {
+							break
+						}
+						if n1 || n2 {
+							deref = types.ExprString(x)
+							return false, true
+						}
+						o := order(d1, d2)
+						switch se.Sel.Name {
+						case "Before":
+							return o < 0, true
+						case "After":
+							return o > 0, true
+						}
+						return o == 0, true
+					}
+					if t := info.TypeOf(x); t != nil && types.Identical(t, types.Universe.Lookup("error").Type()) {
+						return "error", true
+					}
 				}
 				tv := info.TypeOf(e)
 				if tv == nil {
 					return nil, false
 				}
 				if b, ok := tv.Underlying().(*types.Basic); !ok || b.Info()&types.IsBoolean == 0 {
-					if types.Identical(tv, types.Universe.Lookup("error").Type()) {
-						if _, isCall := e.(*ast.CallExpr); isCall {
-							return "error", true
-						}
-					}
 					return nil, false
 				}
 				switch x := e.(type) {
@@ -591,23 +664,23 @@ func c12Order(c *core.Ctx) {
 					if x.Op == token.LAND || x.Op == token.LOR {
 						return nil, false
 					}
+					// comparisons of dates / date pointers with nil are evaluated, not enumerated
+					if _, _, isDate := asDate(x.X); isDate {
+						return nil, false
+					}
+					if core.VarOf(info, x.X) == cur || core.VarOf(info, x.Y) == cur {
+						if core.IsNil(info, x.X) || core.IsNil(info, x.Y) {
+							return x.Op == token.NEQ, true // the entry at hand is not a null
+						}
+					}
 				case *ast.UnaryExpr:
 					return nil, false
 				case *ast.Ident:
 					if v, isVar := info.Uses[x].(*types.Var); isVar && !v.IsField() && v.Parent() != v.Pkg().Scope() {
 						return nil, false // a local flag: its value is what was assigned to it
 					}
-				}
-				if mentionsDate(e) {
-					v, ok := dev.eval(e)
-					if !ok {
-						undecided = dev.why
-						if undecided == "" {
-							undecided = "no model for sub-expression " + types.ExprString(e)
-						}
-						return nil, false
-					}
-					return v, true
+				case *ast.CallExpr:
+					return nil, false
 				}
 				k := types.ExprString(e)
 				if !known[k] {
@@ -623,9 +696,14 @@ func c12Order(c *core.Ctx) {
 				}
 				return nil, false
 			}
-			ret, reached, ok := ev.RunList(loop.Body.List)
-			if dev.deref != "" {
-				deref = dev.deref
+			_, _, ok := ev.RunList(preLoop)
+			var ret []any
+			reached := false
+			for iter = 0; ok && iter < len(t.entries); iter++ {
+				ret, reached, ok = ev.RunMore(loop.Body.List)
+				if reached && !(len(ret) == 1 && ret[0] == any("skip")) {
+					break
+				}
 			}
 			if grew {
 				mask = -1
@@ -633,11 +711,11 @@ func c12Order(c *core.Ctx) {
 			}
 			if !ok {
 				if undecided == "" {
-					undecided = "the loop body could not be evaluated"
+					undecided = "the loop body could not be evaluated over abstract dates"
 				}
 				break
 			}
-			if reached && len(ret) == 1 && ret[0] == "error" {
+			if reached && len(ret) == 1 && ret[0] == any("error") && iter >= len(t.entries)-1 {
 				reported = true
 			}
 		}
